@@ -8,6 +8,7 @@ is a utility node, agent 0 owns {0,1}, agent 1 owns {3,4}.
 -/
 import JumanjiModel.Env.MMST.Lemmas
 import JumanjiModel.Env.MMST.Bounds
+import JumanjiModel.Env.MMST.FeasibleLemmas
 open Jm MMST
 
 namespace Props.MMSTEx
@@ -72,6 +73,69 @@ example : Shaped MMSTEx.cfg MMSTEx.st ∧ EdgesOK MMSTEx.cfg MMSTEx.st ∧ Flags
 example : legal MMSTEx.cfg MMSTEx.st 1 2 ∧ ¬ legal MMSTEx.cfg MMSTEx.st 0 2 := by decide +kernel
 /-- the utility node 2, once used by agent 1, is closed for agent 0 -/
 example : ¬ legal MMSTEx.cfg MMSTEx.st1 0 2 ∧ takenByOther MMSTEx.cfg MMSTEx.st1 0 2 := by decide +kernel
+/-! #### `step_agrees`, the other direction: a legal action is carried out unless it loses the tie-break -/
+
+/-- after every step the finished flags are those of the current routes (`FlagsFresh`, the hypothesis of the
+theorems above, is re-established by `step`; rows of `nodes_to_connect` have `num_nodes_per_agent` entries) -/
+theorem mmst_step_flagsFresh (cfg : Cfg) (s : State) (action : List Int) (perm : List Nat)
+    (hK : ∀ i, i < cfg.numAgents → (s.nodesToConnect.getD i []).length = cfg.numNodesPerAgent) :
+    FlagsFresh cfg (step cfg s action perm).1 := MMST.step_flagsFresh cfg s action perm hK
+
+/-- a legal action is carried out when no agent BEFORE agent `i` in the draw asks for the same node (agents after
+it lose the tie-break against it) and `i` occurs once in the draw `l1 ++ i :: l2` -/
+theorem mmst_legal_moves (cfg : Cfg) (s : State) (hS : Shaped cfg s) (hE : EdgesOK cfg s) (hF : FlagsFresh cfg s)
+    (action l1 l2 : List Nat) (i : Nat) (hi : i < cfg.numAgents) (hl : action.length = cfg.numAgents)
+    (ha : action.getD i 0 < cfg.numNodes) (hleg : legal cfg s i (action.getD i 0))
+    (h1 : ∀ k ∈ l1, (targets cfg s (action.map Int.ofNat)).getD k (-1) ≠ ((action.getD i 0 : Nat) : Int))
+    (h2 : i ∉ l2) :
+    (step cfg s (action.map Int.ofNat) (l1 ++ i :: l2)).1.positionIndex.getD i 0 = s.positionIndex.getD i 0 + 1 ∧
+    (step cfg s (action.map Int.ofNat) (l1 ++ i :: l2)).1.positions.getD i 0 = ((action.getD i 0 : Nat) : Int) := by
+  obtain ⟨hm, hn⟩ := MMST.legal_moves hS hE hF action l1 l2 hi hl ha hleg h1 h2
+  rw [MMST.step_positionIndex cfg s _ _ hi, MMST.step_positions cfg s _ _ hi, if_pos hm, if_pos hm]
+  exact ⟨rfl, hn⟩
+
+/-- the converse of `mmst_moved_only_if_legal`: for EVERY valid draw, a legal action whose node no other agent
+asks for in this step (uncontested) moves the agent to that node and advances its route index -/
+theorem mmst_legal_uncontested_moves (cfg : Cfg) (s : State) (hS : Shaped cfg s) (hE : EdgesOK cfg s)
+    (hF : FlagsFresh cfg s) (action perm : List Nat) (hd : validDraw cfg.numAgents perm) (i : Nat)
+    (hi : i < cfg.numAgents) (hl : action.length = cfg.numAgents) (ha : action.getD i 0 < cfg.numNodes)
+    (hleg : legal cfg s i (action.getD i 0))
+    (hunc : ∀ k, k < cfg.numAgents → k ≠ i →
+      (targets cfg s (action.map Int.ofNat)).getD k (-1) ≠ ((action.getD i 0 : Nat) : Int)) :
+    (step cfg s (action.map Int.ofNat) perm).1.positionIndex.getD i 0 = s.positionIndex.getD i 0 + 1 ∧
+    (step cfg s (action.map Int.ofNat) perm).1.positions.getD i 0 = ((action.getD i 0 : Nat) : Int) :=
+  MMST.legal_uncontested_moves hS hE hF action perm hd hi hl ha hleg hunc
+
+/-- `step_agrees` in both directions: for an uncontested in-spec action and any valid draw, the environment moves
+the agent iff the rules say the action is legal -/
+theorem mmst_step_agrees (cfg : Cfg) (s : State) (hS : Shaped cfg s) (hE : EdgesOK cfg s)
+    (hF : FlagsFresh cfg s) (action perm : List Nat) (hd : validDraw cfg.numAgents perm) (i : Nat)
+    (hi : i < cfg.numAgents) (hl : action.length = cfg.numAgents) (ha : action.getD i 0 < cfg.numNodes)
+    (hunc : ∀ k, k < cfg.numAgents → k ≠ i →
+      (targets cfg s (action.map Int.ofNat)).getD k (-1) ≠ ((action.getD i 0 : Nat) : Int)) :
+    legal cfg s i (action.getD i 0) ↔
+      (step cfg s (action.map Int.ofNat) perm).1.positionIndex.getD i 0 ≠ s.positionIndex.getD i 0 := by
+  constructor
+  · intro hleg
+    have := (MMST.legal_uncontested_moves hS hE hF action perm hd hi hl ha hleg hunc).1
+    omega
+  · exact MMST.moved_only_if_legal hS hE hF action perm hi ha
+
+/-- the hypotheses are satisfiable: at the start of the example agent 0 plays 1 and agent 1 plays 2, nobody
+contests, both moves are legal and carried out -/
+example : validDraw MMSTEx.cfg.numAgents [1, 0] ∧ legal MMSTEx.cfg MMSTEx.st 0 1 ∧
+    (targets MMSTEx.cfg MMSTEx.st ([1, 2].map Int.ofNat)).getD 1 (-1) ≠ ((1 : Nat) : Int) ∧
+    (step MMSTEx.cfg MMSTEx.st [1, 2] [1, 0]).1.positions = [1, 2] := by decide +kernel
+
+/-- "uncontested" cannot be dropped: both agents legally ask for the free utility node 2, the one later in the
+draw stays where it is (the documented tie-break, not a defect) -/
+theorem mmst_legal_contested_not_moved_witness :
+    (let s := { MMSTEx.st with positions := [1, 3], connectedIndex := [[0, 1, -1, -1, -1], [-1, -1, -1, 3, -1]],
+                               connectedNodes := [[0, 1, -1, -1, -1, -1], [3, -1, -1, -1, -1, -1]],
+                               positionIndex := [1, 0], nodesToConnect := [[0, 4], [3, 4]] }
+     Feasible MMSTEx.cfg s ∧ FlagsFresh MMSTEx.cfg s ∧ legal MMSTEx.cfg s 0 2 ∧ legal MMSTEx.cfg s 1 2 ∧
+     (step MMSTEx.cfg s [2, 2] [1, 0]).1.positionIndex = [1, 1] ∧
+     (step MMSTEx.cfg s [2, 2] [0, 1]).1.positionIndex = [2, 0]) := by decide +kernel
 end Props.C04
 
 namespace Props.C05
@@ -148,6 +212,53 @@ example : Feasible MMSTEx.cfg (step MMSTEx.cfg MMSTEx.st1 [0, 3] [1, 0]).1 ∧
 /-- the start state of the example satisfies the hard constraint and its bookkeeping; so does the successor in
 which agent 1 has taken the utility node -/
 example : Feasible MMSTEx.cfg MMSTEx.st ∧ Feasible MMSTEx.cfg MMSTEx.st1 := by decide +kernel
+/-! #### `Feasible` is an inductive invariant -/
+
+/-- `Feasible` (= `Shaped ∧ UtilityExclusive ∧ EdgesOK ∧ RouteOK`) is preserved by EVERY step: any joint action
+(any list of integers — masked-in or not, in range or not), any draw (a valid permutation or not), any
+configuration (pinned or repaired mask / visited lookup, `freshMask`, `guardVisited`) -/
+theorem mmst_step_feasible (cfg : Cfg) (s : State) (h : Feasible cfg s) (action : List Int) (perm : List Nat) :
+    Feasible cfg (step cfg s action perm).1 := MMST.step_feasible h action perm
+
+/-- … in particular under mask-respecting play (every agent plays a node its cached mask offers, or any node when
+its mask row is empty) with a valid tie-break draw, in the repaired configuration -/
+theorem mmst_masked_step_feasible (cfg : Cfg) (s : State) (h : Feasible cfg s) (action perm : List Nat)
+    (_hc : cfg.freshMask = true ∧ cfg.guardVisited = true) (_hd : validDraw cfg.numAgents perm)
+    (_hmask : ∀ i, i < cfg.numAgents →
+      (s.actionMask.getD i []).getD (action.getD i 0) false = true ∨ (s.actionMask.getD i []).all (· == false) = true) :
+    Feasible cfg (step cfg s (action.map Int.ofNat) perm).1 := MMST.step_feasible h _ perm
+
+/-- … and along every run: all states reached from a feasible state by any sequence of joint actions and draws
+are feasible -/
+theorem mmst_feasible_along (cfg : Cfg) (s : State) (h : Feasible cfg s) (steps : List (List Int × List Nat)) :
+    ∀ s' ∈ statesAlong cfg s steps, Feasible cfg s' := MMST.feasible_along steps h
+
+/-- reset: a state with the configured shapes that satisfies the generator certificates `certStart` (every agent
+stands on its first node, routes otherwise empty), `certTypes` (node types = ownership, so start nodes are not
+utility nodes) and `certEdgesAdj` (every agent's edge table is the adjacency matrix) is feasible -/
+theorem mmst_reset_feasible (cfg : Cfg) (s : State) (hS : Shaped cfg s) (h1 : certStart cfg s = true)
+    (h2 : certTypes cfg s = true) (h3 : certEdgesAdj cfg s = true) : Feasible cfg s :=
+  MMST.reset_feasible hS h1 h2 h3
+
+/-- a feasible state with fresh flags in which every agent is finished is a complete solution -/
+theorem mmst_complete_is_solution (cfg : Cfg) (s : State) (hF : Feasible cfg s) (hFr : FlagsFresh cfg s)
+    (hdone : s.finished.all id = true) : IsSolution cfg s := MMST.complete_is_solution hF hFr hdone
+
+/-- the step that ends an episode before the time limit (ended by completion) leaves a complete feasible solution:
+every agent has all its nodes on its route and no utility node is shared -/
+theorem mmst_step_complete_is_solution (cfg : Cfg) (s : State) (hF : Feasible cfg s) (action : List Int)
+    (perm : List Nat)
+    (hK : ∀ i, i < cfg.numAgents → (s.nodesToConnect.getD i []).length = cfg.numNodesPerAgent)
+    (hlast : (step cfg s action perm).2.stepType = .last) (ht : s.stepCount + 1 < (cfg.timeLimit : Int)) :
+    IsSolution cfg (step cfg s action perm).1 := MMST.step_complete_is_solution hF action perm hK hlast ht
+
+/-- the start state of the example satisfies the certificates -/
+example : Shaped MMSTEx.cfg MMSTEx.st ∧ certStart MMSTEx.cfg MMSTEx.st = true ∧ certTypes MMSTEx.cfg MMSTEx.st = true ∧
+    certEdgesAdj MMSTEx.cfg MMSTEx.st = true := by decide +kernel
+/-- an episode of the example that ends by completion after two steps (agent 0: 0→1; agent 1: 3→4) -/
+example : (step MMSTEx.cfgG MMSTEx.st [1, 4] [0, 1]).2.stepType = .last ∧
+    MMSTEx.st.stepCount + 1 < (MMSTEx.cfgG.timeLimit : Int) ∧
+    IsSolution MMSTEx.cfgG (step MMSTEx.cfgG MMSTEx.st [1, 4] [0, 1]).1 := by decide +kernel
 end Props.C06
 
 namespace Props.C11
